@@ -221,6 +221,8 @@ class GraphicalModel:
         cliques = [set(cl) for cl in self.cliques]
 
         def synthetic_col(counts, total):
+            if _vt.ON and _vt.sink is not None:
+                _vt.emit('synth.in', method=method, counts=np.array(counts), total=total)
             if method == 'sample':
                 probas = counts / counts.sum()
                 return np.random.choice(counts.size, total, True, probas)
@@ -247,6 +249,8 @@ class GraphicalModel:
             proj = tuple(relevant)
             used.add(col)
             marg = self.project(proj + (col,)).datavector(flatten=False)
+            if _vt.ON and _vt.sink is not None:
+                _vt.emit('synth.column', col=col, proj=proj)
 
             if len(proj) >= 1:
                 for idx, group in df.groupby(list(proj)):
